@@ -386,7 +386,7 @@ func writeComputedFieldExpression(w *formatting.IndentedWriter, expression dsl.E
 					helperFunctionLookup[arrType] = funcName
 					fmt.Fprintf(w, "def %s(dim_name: str) -> int:\n", funcName)
 					w.Indented(func() {
-						dims := dsl.ToGeneralizedType(arrType).Dimensionality.(*dsl.Array).Dimensions
+						dims := dsl.ToGeneralizedType(dsl.GetUnderlyingType(arrType)).Dimensionality.(*dsl.Array).Dimensions
 						for i, d := range *dims {
 							if d.Name == nil {
 								continue
